@@ -4,13 +4,13 @@ ID = 'C01'
 HARNESSES = ['h_c01.cpp']
 LEVEL = 'model_checking'
 BUDGET = {'quick': 280, 'thorough': 3000}
-BOUNDS = {'quick': 'shapes P,C<=2 S<=2 F<=2; 3 construction orders; one extra parameter (int/float/string, 0..3 dims of extent<=3, name<=4 chars, description<=3 chars); all floats, 16-bit ints, characters, lock flags symbolic',
+BOUNDS = {'quick': 'shapes P,C<=2 S<=2 F<=2; 3 construction orders; one extra parameter (int/float/string, 0..3 dims of extent<=3, name<=4 chars, description<=3 chars); all floats, 16-bit ints, characters, lock flags symbolic; parameter-section length swept through all 512 residues modulo the block size',
           'thorough': 'shapes P,C<=3 S<=3 F<=3; 3 construction orders; extra parameter int/float/string with 0..7 dims, descriptions 0/1/17 chars, symbolic point/channel names; all payload symbolic'}
 OUTSIDE = 'more than 3 points/channels/sub-frames/frames; strings longer than 17 chars; BYTE-typed parameters (no public setter); integer values outside int16 (C17)'
 ASSUMPTIONS = ['POINT:RATE=100 and ANALOG:RATE=100*S are concrete (they fix loop trip counts)', 'names are printable non-space ASCII; descriptions printable ASCII']
 
 def base(**kw):
-    c = dict(P=2, C=1, S=2, F=2, order=0, ex_type=0, ex_group=0, ex_ndim=0, ex_n=0, ex_nlen=0, ex_dlen=0, ex_slen=0, symnames=0, norate=0)
+    c = dict(P=2, C=1, S=2, F=2, order=0, ex_type=0, ex_group=0, ex_ndim=0, ex_n=0, ex_nlen=0, ex_dlen=0, ex_slen=0, symnames=0, norate=0, pad=-1)
     c.update(kw); return c
 
 def ex_variants(tier):
@@ -51,6 +51,9 @@ def jobs(tier, seed):
                 J(P=1, C=1, S=1, F=1, order=order, ex_group=g, **ev)
     # analog-only content without a POINT:RATE (one sub-frame per frame)
     for order in (0, 1, 2): J(P=0, C=2, S=1, F=2, order=order, norate=1)
+    # alignment sweep: the parameter section length goes through all 512 residues modulo the block size (0.3 s per save/load);
+    # the data floats are free, so the byte that follows the parameter section is any value
+    for L in range(0, 520): J(P=1, C=0, S=1, F=1, order=L % 3, pad=L)
     # symbolic point/channel names
     J(P=2, C=2, S=1, F=1, order=0, symnames=1)
     if tier == 'thorough':
